@@ -29,6 +29,8 @@ CONSTANTS Keys, Writers,
           MaxArr, MaxSteps,
           Forms,       \* subset of {"take","read","take_next","read_next","take_inst","read_inst"}
           Kinds,       \* subset of {"V", "D", "X"}: values, disposes by key, unintelligible changes (C09)
+          Retransmit,  \* a reliable reader; a change may be lost and arrive after the writer's next one (lower sequence
+                       \* number received later): the cache is ordered by reception time, the result by sequence number
           GenK
 
 VARIABLES
@@ -41,23 +43,26 @@ VARIABLES
   iAcc,      \* key -> last_generation_accessed (-1: never)
   iSamples,  \* key -> ids in instance_samples (entries of taken samples stay until evicted)
   nextSn,    \* writer -> next sequence number
+  rts,       \* id -> position in the order of reception (the cache key; = id unless retransmitted)
   steps, trail
 
-implVars == <<pend, cache, readf, sgen, iState, iGen, iAcc, iSamples, nextSn>>
+implVars == <<pend, cache, readf, sgen, iState, iGen, iAcc, iSamples, nextSn, rts>>
 vars == <<scVars, implVars, steps, trail>>
 
 Lt(a, b) == a < b
 FPut(f, k, v) == [x \in DOMAIN f \cup {k} |-> IF x = k THEN v ELSE f[x]]
 SMinOf(S) == CHOOSE x \in S : \A y \in S : x <= y
+\* the n entries of S received first
 RECURSIVE SmallestN(_, _)
-SmallestN(S, n) == IF n <= 0 \/ S = {} THEN {} ELSE LET m == SMinOf(S) IN {m} \cup SmallestN(S \ {m}, n - 1)
+SmallestN(S, n) == IF n <= 0 \/ S = {} THEN {} ELSE LET m == CHOOSE x \in S : \A y \in S : rts[x] <= rts[y]
+                                                     IN {m} \cup SmallestN(S \ {m}, n - 1)
 
 Init ==
   /\ SCInit(Depth0)
   /\ taken = {} /\ wasRead = {} /\ seenOut = {} /\ errs = 0 /\ fzRead = {} /\ fzTaken = {} /\ viol = {}
   /\ pend = <<>> /\ cache = {} /\ readf = {} /\ sgen = <<>>
   /\ iState = <<>> /\ iGen = <<>> /\ iAcc = <<>> /\ iSamples = <<>>
-  /\ nextSn = [w \in Writers |-> 1]
+  /\ nextSn = [w \in Writers |-> 1] /\ rts = <<>>
   /\ steps = 0 /\ trail = <<>>
 
 Log(a) == steps' = steps + 1 /\ trail' = Append(trail, a)
@@ -68,8 +73,31 @@ Arrive(w, k, kind) ==
   /\ AbsArrive(w, nextSn[w], k, kind, TRUE)
   /\ pend' = Append(pend, Len(arr) + 1)
   /\ nextSn' = [nextSn EXCEPT ![w] = @ + 1]
+  /\ rts' = FPut(rts, Len(arr) + 1, Len(arr) + 1)
   /\ UNCHANGED <<cache, readf, sgen, iState, iGen, iAcc, iSamples>>
   /\ Log([a |-> "Arrive", w |-> w, k |-> k, kind |-> CASE kind = "V" -> "V" [] kind = "D" -> "DK" [] OTHER -> "UD", hold |-> FALSE])
+
+\* Two consecutive changes of one writer; the first is lost and retransmitted after the second.  The reliable reader
+\* hands both over only when the first has arrived, in sequence-number order; the cache keeps them by reception time.
+ArrivePair(w, k1, kind1, k2, kind2) ==
+  /\ Retransmit /\ Len(arr) + 1 < MaxArr
+  /\ LET n == Len(arr)
+         g1 == Get(dgen, k1, 0) + (IF kind1 = "V" /\ Get(ist, k1, "none") = "D" THEN 1 ELSE 0)
+         ist1 == Put(ist, k1, IF kind1 = "V" THEN "A" ELSE "D")
+         dgen1 == Put(dgen, k1, g1)
+         g2 == Get(dgen1, k2, 0) + (IF kind2 = "V" /\ Get(ist1, k2, "none") = "D" THEN 1 ELSE 0)
+     IN /\ arr' = arr \o << [w |-> w, sn |-> nextSn[w], k |-> k1, kind |-> kind1, gen |-> g1, ord |-> TRUE],
+                             [w |-> w, sn |-> nextSn[w] + 1, k |-> k2, kind |-> kind2, gen |-> g2, ord |-> FALSE] >>
+        /\ ist' = Put(ist1, k2, IF kind2 = "V" THEN "A" ELSE "D")
+        /\ dgen' = Put(dgen1, k2, g2)
+        /\ rts' = FPut(FPut(rts, n + 1, n + 2), n + 2, n + 1)
+        /\ pend' = pend \o <<n + 1, n + 2>>
+  /\ nextSn' = [nextSn EXCEPT ![w] = @ + 2]
+  /\ UNCHANGED <<depth, lastAcc, accHi, taken, wasRead, seenOut, errs, fzRead, fzTaken, viol>>
+  /\ UNCHANGED <<cache, readf, sgen, iState, iGen, iAcc, iSamples>>
+  /\ steps' = steps + 1
+  /\ trail' = trail \o << [a |-> "Arrive", w |-> w, k |-> k1, kind |-> IF kind1 = "V" THEN "V" ELSE "DK", hold |-> TRUE],
+                           [a |-> "Arrive", w |-> w, k |-> k2, kind |-> IF kind2 = "V" THEN "V" ELSE "DK", hold |-> FALSE] >>
 
 (* ------------------------------------- DataSampleCache::add_sample, folded *)
 \* st = [cache, sgen, iState, iGen, iAcc, iSamples]; id is in arr (arr' when called from a call after arrivals)
@@ -102,7 +130,7 @@ Fill(st, ids, i) ==
 
 (* ----------------------------------------------------------------- a call *)
 \* sort_by_sequence_number: a stable sort by sequence number alone (of whatever writer)
-SnLt(a, b) == arr[a].sn < arr[b].sn \/ (arr[a].sn = arr[b].sn /\ a < b)
+SnLt(a, b) == arr[a].sn < arr[b].sn \/ (arr[a].sn = arr[b].sn /\ rts[a] < rts[b])
 
 Selected(st, cond, scopeKey) ==          \* scopeKey = -1: all instances
   LET S == {i \in st.cache : (cond = "any" \/ i \notin readf) /\ (scopeKey = -1 \/ arr[i].k = scopeKey)}
@@ -151,11 +179,12 @@ Call(form, max, cond, inst, dir) ==
         /\ iAcc' = newAcc
         /\ AbsCall(IF err THEN "err" ELSE "ok", out, effMax, effCond, IF instForm THEN <<dir, inst>> ELSE <<"all", -1>>,
                    removing, ~removing, TRUE, TRUE, TRUE)
-  /\ UNCHANGED nextSn
+  /\ UNCHANGED <<nextSn, rts>>
   /\ Log([a |-> "Call", form |-> form, max |-> max, cond |-> cond, inst |-> inst, dir |-> dir])
 
 Next ==
   \/ \E w \in Writers, k \in Keys, kind \in Kinds : Arrive(w, k, kind)
+  \/ \E w \in Writers, k1, k2 \in Keys, kind1, kind2 \in Kinds \ {"X"} : ArrivePair(w, k1, kind1, k2, kind2)
   \/ \E form \in Forms, max \in {1, 1000}, cond \in {"any", "notread"} :
        \/ form \in {"take", "read"} /\ Call(form, max, cond, -1, "this")
        \/ form \in {"take_next", "read_next"} /\ max = 1 /\ cond = "notread" /\ Call(form, 1, "notread", -1, "this")
@@ -176,5 +205,5 @@ Inv_NothingLostBehindBadChange ==
 Inv_InstanceState == pend = <<>> => (DOMAIN iState = DOMAIN ist /\ \A k \in DOMAIN iState : iState[k] = ist[k] /\ iGen[k] = dgen[k])
 
 GenEdge == (GenK > 0 /\ RandomElement(1..GenK) = 1) =>
-             PrintT("REPLAY " \o ToJson([reliable |-> FALSE, depth |-> Depth0, mode |-> "dr", acts |-> trail']))
+             PrintT("REPLAY " \o ToJson([reliable |-> Retransmit, depth |-> Depth0, mode |-> "dr", acts |-> trail']))
 =============================================================================
